@@ -19,9 +19,10 @@ use std::rc::Rc;
 fn put_request(kind: &str, seq: i64, cas: Option<i64>, val: &[u8]) -> PutRequestSpecific {
     match kind {
         "imm" => PutRequestSpecific::PutImmutable(v::PutImmutableRequestArguments { target: Id::from(crypto::immutable_target(val)), v: val.into() }),
-        "announce" => PutRequestSpecific::AnnouncePeer(v::AnnouncePeerRequestArguments { info_hash: Id::from(crypto::sha1(b"ih")), port: 7000, implied_port: None }),
+        // seq doubles as the variant of an announcement: another port / another signer for the same info_hash
+        "announce" => PutRequestSpecific::AnnouncePeer(v::AnnouncePeerRequestArguments { info_hash: Id::from(crypto::sha1(b"ih")), port: (7000 + seq.rem_euclid(1000)) as u16, implied_port: None }),
         "sannounce" => {
-            let sk = crypto::keypair(4);
+            let sk = crypto::keypair(4 + seq.rem_euclid(50) as u8);
             let ih = crypto::sha1(b"ih");
             let t = v::unix_micros();
             PutRequestSpecific::AnnounceSignedPeer(v::AnnounceSignedPeerRequestArguments {
@@ -203,6 +204,65 @@ fn run_conflict(b: u64, phase: &str, sig_same: bool, seq: i64, cas: i64, seed: u
         "panicked": sim.nodes[c].panicked, "leak": leak})
 }
 
+/// Two puts of a kind whose target does not determine the payload (announce_peer with two ports, announce_signed_peer with
+/// two signers; as a control: the same immutable value twice) overlapping on one node: the second call is made at a phase
+/// of the first one's lifetime. Which payloads went out in store requests and were acknowledged is read from the fake peers.
+fn run_overlap(b: u64, kind: &str, phase: &str, seed: u64) -> Value {
+    let mut sim = Sim::new(seed ^ b, NetCfg { lat_min_ms: 10, lat_max_ms: 10, ..Default::default() });
+    let ids: Vec<[u8; 20]> = (0..4).map(|i| crypto::sha1(&[i as u8, 23])).collect();
+    let net = FakeNet::install(&mut sim, &ids, Box::new(|_, _, _| Reply::Default));
+    let c = sim.add_node(NodeOpts::client(private_ip(3), &net.bootstrap()));
+    sim.run_for(2500);
+    net.clear_seen();
+    let (v1, v2) = if kind == "imm" { (5, 5) } else { (5, 6) };
+    let first = put_request(kind, v1, None, b"overlap value");
+    let second = put_request(kind, v2, None, b"overlap value");
+    let mut c1 = sim.call_put(c, first, None, "first");
+    sim.poke(c);
+    let mut c2: Option<Call> = None;
+    let limit = sim.now_ns() + 60_000 * MS;
+    loop {
+        let now = sim.now_ns();
+        c1.poll(now);
+        if let Some(x) = c2.as_mut() {
+            x.poll(now);
+        }
+        let stores_seen = net.seen().iter().any(|s| is_store(s.msg.q.as_deref().unwrap_or("")));
+        let trigger = match phase {
+            "during_lookup" => true,
+            "store_phase" => stores_seen,
+            _ => c1.done(),
+        };
+        if c2.is_none() && trigger {
+            c2 = Some(sim.call_put(c, second.clone(), None, "second"));
+            sim.poke(c);
+            continue;
+        }
+        if c1.done() && c2.as_ref().map(|x| x.done()).unwrap_or(false) {
+            break;
+        }
+        if !sim.step(limit) {
+            break;
+        }
+    }
+    sim.run_for(1500);
+    let snap = sim.snapshot(c);
+    let leak = snap.map(|s| !s.puts.is_empty() || !s.put_senders.is_empty()).unwrap_or(true);
+    // the payload a store request carried: port / signer key / value
+    let carried = |variant: i64| {
+        net.seen().iter().any(|s| match kind {
+            "announce" => s.msg.q.as_deref() == Some("announce_peer") && s.msg.arg_int("port") == Some((7000 + variant) as i128),
+            "sannounce" => s.msg.q.as_deref() == Some("announce_signed_peer") && s.msg.arg_bytes("k") == Some(&crypto::keypair(4 + variant as u8).verifying_key().to_bytes()[..]),
+            _ => s.msg.q.as_deref() == Some("put") && s.msg.arg_bytes("v") == Some(&b"overlap value"[..]),
+        })
+    };
+    json!({"e":"overlap","b":b,"kind":kind,"phase":phase,"first_written":carried(v1),"second_written":carried(v2),
+        "first_result": c1.outcome().map(|o| o.name()).unwrap_or("hang".into()),
+        "second_result": c2.as_ref().and_then(|x| x.outcome().map(|o| o.name())).unwrap_or("hang".into()),
+        "first_outcomes": c1.outcomes.len(), "second_outcomes": c2.as_ref().map(|x| x.outcomes.len()).unwrap_or(0),
+        "panicked": sim.nodes[c].panicked, "leak": leak})
+}
+
 pub fn run(args: &Args) -> i32 {
     let seed = args.u64("seed", 1);
     let thorough = args.thorough();
@@ -266,6 +326,16 @@ pub fn run(args: &Args) -> i32 {
                     out.line(&ev);
                     b += 1;
                 }
+            }
+        }
+    }
+    if args.get("no-conflict").is_none() {
+        for kind in ["announce", "sannounce", "imm"] {
+            for phase in ["during_lookup", "store_phase", "after_done"] {
+                let ev = run_overlap(b, kind, phase, seed);
+                distinct.insert(format!("overlap{kind}{phase}"));
+                out.line(&ev);
+                b += 1;
             }
         }
     }
